@@ -8,10 +8,13 @@ read groups, the engine logic of the REPAIRED design (`Model/Engine.lean` with `
 from-scratch value of `k` on the inputs committed in `s` and the external values of `s` (`evalSpec`
 never looks at cached values); `Inv` is the engine invariant (`Lemmas/EngineCoreFw1.lean`).
 
-What is proved: every theorem below for programs in which NO PROJECTION READS A PROJECTION
-(`NoProjOverProj p`: projections read firewalls only; firewalls, projections, transitive firewall
-sets, the trust rule, the observation refresh, dirty propagation from a changed firewall / projection
-in the same epoch, pending backward projections and their execution are all in).  The statements for all five
+What is proved: every theorem below under `Shape p` = `NoProjOverProj p ∨ StaticProj p`, two
+incomparable program classes: (A) NO PROJECTION READS A PROJECTION (projections read firewalls only;
+their read sets may depend on the values read), (B) EVERY PROJECTION HAS A VALUE-INDEPENDENT READ
+SEQUENCE (`ProgStatic`; projections may read projections: chains of any depth).  Firewalls,
+projections, transitive firewall sets, the trust rule, the observation refresh, dirty propagation from
+a changed firewall / projection in the same epoch, pending backward projections and their (recursive)
+execution are all in.  Corollaries `…_classA` / `…_classB` restate the main theorem per class.  The statements for all five
 kinds are `C01_full_statement` / `C01_termination_full_statement`; they are NOT proved, and for the
 design without `f1r` they are FALSE (`repair_without_f1r_unsound_shape` documents the history; the
 model with `f1r` answers it correctly).
@@ -20,6 +23,7 @@ PART 2 (namespace `Qbice.Core`): the same theorems for the firewall-free core mo
 C07 / C08), unchanged.
 -/
 import QbiceVerif.Lemmas.EngineCoreFwEx
+import QbiceVerif.Lemmas.EngineCoreFwDet
 import QbiceVerif.Lemmas.EngineCoreEx
 namespace Qbice.CoreFw
 open Qbice.Core (Prog Err Write SetRes Op OpOut Ref Sat applyWrites writeResults applyWorld)
@@ -31,6 +35,52 @@ def C01_full_statement : Prop :=
   ∀ (p : Program), WF p → ∀ (ops : List Op) (outs : List OpOut) (s' : St),
     runOps p ops {} = .ok (outs, s') → OutOK p ops outs Ref.init
 
+/-
+STATUS OF `C01_full_statement` (and of `C01_termination_full_statement`,
+`C03_exec_justified_full_statement`): NOT a theorem yet.  Proved: `Shape p` (class A: no projection
+reads a projection; class B: every projection has a value-independent read sequence).  Open: DYNAMIC
+projections that read projections.  No counterexample is known: 400 000 generated cases of the stress
+family `--mode pjchain` (chains of 2–5 projections with conditional reads at every level) agree with
+the from-scratch oracle, in this model, in `Model/Engine.lean` and in the fixed implementation.
+
+What the proof needs beyond the present development (all clauses about a projection `z` with a
+recorded callee `g`):
+  L1  (have, `Inv.pjBroken`, value part)  value of `g` ≠ observed, or `g` a projection whose set ≠ the
+      fingerprint seen by `z`  ⇒  `g` has a pending backward projection.
+  L2  `g` a projection with a pending backward projection ⇒ some firewall of `tfc g` has one.
+  L3  … ⇒ some firewall of `z.seen g` has one (this is what makes `Inv.proj_solid` go through: a
+      projection whose set is settled has no pending callee, hence — L1 — current observations).
+  Available building block: read-prefix determinism of executors, PROVED for the model's executors
+  (`Lemmas/EngineCoreFwDet.lean`: `readKeys_prefix`, `runProg_readKeys`, `exec_rereads_first_changed`):
+  the first recorded callee whose value changed is read again by the next run.  With it L2 is
+  established whenever a pending flag is set (the cause is still a callee, it is pending by L1).
+  MISSING LEMMA (the one that needs history):  L3 for an edge `(z, g)` whose observation is OLDER than
+  `g`'s last change.  `z.seen g` is the set `g` had when `z` observed it; the pending firewall at the
+  bottom of `g`'s "spine" (`d*(g)` = first callee of `g`, in read order, with a pending backward
+  projection; `Spine g` = `d*(g)` if it is a firewall, else `Spine (d*(g))`) lies in that old set only
+  because of what happened to `g` and to the nodes below it BETWEEN the observation and now — nodes
+  that no longer exist in the state.  Candidate formulation (ghost state, erased by the executable
+  model; not carried out): per node a version counter `ver` (bumped when value or set changes), the
+  version `clearVer` at which its backward projection was last completed, and per version `w` the set
+  `hist w` and the observed callees `histObs w : List (Key × version)`; per observation the version
+  seen.  Ghost invariant, for a projection `c` with a pending backward projection and every version
+  `w ∈ [clearVer c, ver c]`:
+    (H1) `Spine c ∈ hist c w`;
+    (H2) the read prefix of `histObs c w` up to `d*(c)` has the keys of the current one, every `(x, u)`
+         in it has `u ≥ clearVer x`, and `hist c w` contains `x` (firewall) resp. `hist x u` (projection);
+    (H3) every recorded edge `(z, c)` saw a version `≥ clearVer c`, and `z.seen c = hist c (that version)`.
+  L3 is H1 + H3.  Preservation, case by case: `c` re-executed while pending — `exec_rereads_first_changed`
+  keeps the prefix up to `d*(c)`, so `Spine c` does not move; `c` becomes pending — `clearVer c = ver c`
+  before, the cause is an old callee, H1 for the single old version follows from H1/H3 of the cause;
+  a callee `x` before `d*(c)` becomes pending — `Spine c` moves to `Spine x ∈ hist x u ⊆ hist c w` by H2;
+  `done_backward_projection` of `k` — every pending projection whose spine ends in `k` has been
+  re-verified by the (nested) loops of `backProject_spec`, `clearVer k := ver k`.  With H1–H3 preserved
+  by `publish_spec`, `Inv.setSame`, `backProject_spec` and `session_spec`, `Inv.proj_solid` closes for
+  all programs and every theorem below loses its `Shape p` hypothesis.  Nothing else in the development
+  depends on `Shape p`.  Size estimate: an instrumented copy of the nine model functions with erasure
+  lemmas, plus the preservation proofs: several thousand lines.
+-/
+
 /-- … and no history run with `fuelFor p` runs out of fuel -/
 def C01_termination_full_statement : Prop :=
   ∀ (p : Program), WF p → ∀ ops : List Op, runOps p ops {} ≠ .error .outOfFuel
@@ -39,57 +89,84 @@ def C01_termination_full_statement : Prop :=
     committed inputs would produce": a successful query BY THE USER in a state satisfying the
     invariant returns `cur p s k`, keeps the invariant, and changes neither the committed inputs nor
     the epoch, nor the external values, nor the world.
-    PARTIAL: programs without a projection over a projection. -/
-theorem core_query_sound_partial {p : Program} (wf : WF p) (pf : NoProjOverProj p) {s : St} (inv : Inv p s)
+    PARTIAL: `Shape p` = no projection over a projection, or all projections static. -/
+theorem core_query_sound_partial {p : Program} (wf : WF p) (sh : Shape p) {s : St} (inv : Inv p s)
     {k fuel : Nat} (hk : k < fuel) {v : Val} {s' : St} (h : query p fuel .user k s = .ok (v, s')) :
     cur p s k = some v ∧ Inv p s' ∧ inputsOf s' = inputsOf s ∧ s'.epoch = s.epoch ∧
       extOf p s' = extOf p s ∧ s'.world = s.world := by
-  obtain ⟨i, f, c, _⟩ := (query_spec wf pf hk inv).ok h
+  obtain ⟨i, f, c, _⟩ := (query_spec wf sh hk inv).ok h
   exact ⟨c, i, f.inputs, f.epoch, f.ext, f.world⟩
+
+/-- class A: no projection reads a projection (projections with value-dependent reads of firewalls) -/
+theorem core_query_sound_classA_partial {p : Program} (wf : WF p) (pa : NoProjOverProj p) {s : St}
+    (inv : Inv p s) {k fuel : Nat} (hk : k < fuel) {v : Val} {s' : St}
+    (h : query p fuel .user k s = .ok (v, s')) : cur p s k = some v ∧ Inv p s' :=
+  let r := core_query_sound_partial wf (Or.inl pa) inv hk h; ⟨r.1, r.2.1⟩
+
+/-- class B: every projection has a value-independent read sequence (chains of projections) -/
+theorem core_query_sound_classB_partial {p : Program} (wf : WF p) (sp : StaticProj p) {s : St}
+    (inv : Inv p s) {k fuel : Nat} (hk : k < fuel) {v : Val} {s' : St}
+    (h : query p fuel .user k s = .ok (v, s')) : cur p s k = some v ∧ Inv p s' :=
+  let r := core_query_sound_partial wf (Or.inr sp) inv hk h; ⟨r.1, r.2.1⟩
+
+/-- non-vacuity of class B: `exS` is a chain of THREE projections over a firewall (2 reads the
+    firewall, 3 reads 2, 4 reads 3 and the firewall); it is not in class A; after the firewall changed
+    the user's query of key 5 repairs the firewall, runs the chain by (recursive) backward projection
+    and returns the from-scratch value -/
+example : WF exS ∧ StaticProj exS ∧ ¬ NoProjOverProj exS ∧ Inv exS exSU ∧ cur exS exSU 5 = some 8 ∧
+    (query exS (fuelFor exS) .user 5 { exSU with log := [] }).toOption.map (fun r => (r.1, r.2.log)) =
+      some (8, [1, 2, 3, 4, 5]) :=
+  ⟨exS_wf, exS_static, exS_not_classA, exSU_inv, by decide, by decide⟩
+
+/-- … and a whole history of it: change, absorbed session, change back -/
+example : WF exS ∧ StaticProj exS ∧ (runOps exS exSOps {}).toOption.map (·.1) =
+    some [.sess [.fresh], .round [5] [1, 2, 3, 4, 5], .sess [.updated], .round [8] [1, 2, 3, 4, 5],
+      .sess [.unchanged], .round [8] [], .sess [.updated], .round [5, 4] [1, 2, 3, 4, 5]] :=
+  ⟨exS_wf, exS_static, by decide⟩
 
 /-- the inner statement: every value handed to an executor (or compared by `check_callee`) — the
     result of a request by a QUERY caller, pedantic or not — equals `cur`; likewise for the
-    `RepairFirewall` caller.  PARTIAL: programs without a projection over a projection. -/
-theorem core_inner_query_sound_partial {p : Program} (wf : WF p) (pf : NoProjOverProj p) {s : St} (inv : Inv p s)
+    `RepairFirewall` caller.  PARTIAL: `Shape p` = no projection over a projection, or all projections static. -/
+theorem core_inner_query_sound_partial {p : Program} (wf : WF p) (sh : Shape p) {s : St} (inv : Inv p s)
     {k fuel : Nat} (hk : k < fuel) {v : Val} {s' : St} :
     (∀ c rv ped, query p fuel (.query c rv ped) k s = .ok (v, s') → cur p s k = some v ∧ Inv p s') ∧
     (query p fuel .repairFirewall k s = .ok (v, s') → cur p s k = some v ∧ Inv p s') := by
   refine ⟨fun c rv ped h => ?_, fun h => ?_⟩
-  · obtain ⟨i, _, _, c, _⟩ := (queryQ_spec wf pf fuel ped k hk s inv).ok h
+  · obtain ⟨i, _, _, c, _⟩ := (queryQ_spec wf sh fuel ped k hk s inv).ok h
     exact ⟨c, i⟩
-  · obtain ⟨i, _, c, _⟩ := (queryF_spec wf pf fuel k hk s inv).ok h
+  · obtain ⟨i, _, c, _⟩ := (queryF_spec wf sh fuel k hk s inv).ok h
     exact ⟨c, i⟩
 
 /-- non-vacuity: the firewall diamond `exF` after a session that changed the firewall's input (the
     firewall's value changes from 1 to 0): the user's query re-executes the firewall and everything
     above it and returns the from-scratch value -/
-example : WF exF ∧ NoProjOverProj exF ∧ Inv exF exFU ∧ 5 < fuelFor exF ∧ cur exF exFU 5 = some 5 ∧
+example : WF exF ∧ Shape exF ∧ Inv exF exFU ∧ 5 < fuelFor exF ∧ cur exF exFU 5 = some 5 ∧
     (query exF (fuelFor exF) .user 5 exFU).toOption.map (fun r => (r.1, r.2.log)) = some (5, [2, 3, 4, 5]) :=
-  ⟨exF_wf, exF_noProj.over, exFU_inv, by decide, by decide, by decide⟩
+  ⟨exF_wf, Or.inl exF_noProj.over, exFU_inv, by decide, by decide, by decide⟩
 
 /-- non-vacuity WITH A PROJECTION: the diamond `exD` after the session that changes the firewall: the
     projection 3 is re-run by backward projection while the transitive firewall callees of key 5 are
     repaired, then keys 4 and 5 -/
-example : WF exD ∧ NoProjOverProj exD ∧ Inv exD exDU ∧ cur exD exDU 5 = some 5 ∧
+example : WF exD ∧ Shape exD ∧ Inv exD exDU ∧ cur exD exDU 5 = some 5 ∧
     (query exD (fuelFor exD) .user 5 { exDU with log := [] }).toOption.map (fun r => (r.1, r.2.log)) =
       some (5, [2, 3, 4, 5]) :=
-  ⟨exD_wf, exD_pf, exDU_inv, by decide, by decide⟩
+  ⟨exD_wf, Or.inl exD_pf, exDU_inv, by decide, by decide⟩
 
 /-- non-vacuity: a session that the firewall ABSORBS (its input changes 1 → 2, its value stays 1):
     only the firewall is re-executed; the nodes above it are answered through clean, trusted edges -/
-example : WF exF ∧ NoProjOverProj exF ∧ Inv exF exFS ∧ cur exF exFS 5 = some 16 ∧
+example : WF exF ∧ Shape exF ∧ Inv exF exFS ∧ cur exF exFS 5 = some 16 ∧
     (query exF (fuelFor exF) .user 5 exFS).toOption.map (fun r => (r.1, r.2.log)) = some (16, [2]) :=
-  ⟨exF_wf, exF_noProj.over, exFS_inv, by decide, by decide⟩
+  ⟨exF_wf, Or.inl exF_noProj.over, exFS_inv, by decide, by decide⟩
 
 /-- non-vacuity with the shape of finding F1b: key 6 has firewall set `{3}`, its dependency 5 has
     switched to the equal-valued firewall 4 while only 5 was queried, and firewall 4's input has
     changed since: the clean edge `(6, 5)`… is dirty, the edge `(5, 4)` is clean but NOT trusted
     (firewall 4 is not verified in this epoch): it is repaired, and the answer is the from-scratch 8 -/
-example : WF exA ∧ NoProjOverProj exA ∧ Inv exA exAS ∧ (exAS.nodes 6).map (·.tfc) = some [3] ∧
+example : WF exA ∧ Shape exA ∧ Inv exA exAS ∧ (exAS.nodes 6).map (·.tfc) = some [3] ∧
     (exAS.nodes 5).map (·.tfc) = some [4] ∧ exAS.dirty 5 4 = false ∧ trusted exAS 4 = false ∧
     cur exA exAS 6 = some 8 ∧
     (query exA (fuelFor exA) .user 6 exAS).toOption.map (fun r => (r.1, r.2.log)) = some (8, [4, 5, 6]) :=
-  ⟨exA_wf, exA_noProj.over, exAS_inv, by decide, by decide, by decide, by decide, by decide, by decide⟩
+  ⟨exA_wf, Or.inl exA_noProj.over, exAS_inv, by decide, by decide, by decide, by decide, by decide, by decide⟩
 
 /-- "an input session (epoch bump, writes, commit with dirty propagation) re-establishes the engine
     invariant; each write reports Fresh / Updated / Unchanged exactly by presence / equality of the
@@ -112,47 +189,47 @@ example : Inv exF exFT ∧
 /-- "for every history of sessions and rounds run from the initial state, every value returned by
     every round equals the from-scratch value on the inputs committed at that point (and every write
     result is the reference one)"; the final state satisfies the invariant.
-    PARTIAL: programs without a projection over a projection (`C01_full_statement` is the statement for all). -/
-theorem core_history_sound_partial {p : Program} (wf : WF p) (pf : NoProjOverProj p) {ops : List Op}
+    PARTIAL: `Shape p` = no projection over a projection, or all projections static (`C01_full_statement` is the statement for all). -/
+theorem core_history_sound_partial {p : Program} (wf : WF p) (sh : Shape p) {ops : List Op}
     {outs : List OpOut} {s' : St} (h : runOps p ops {} = .ok (outs, s')) :
     OutOK p ops outs Ref.init ∧ Inv p s' :=
-  (runOps_spec wf pf ops {} (Inv.init p)).ok h
+  (runOps_spec wf sh ops {} (Inv.init p)).ok h
 
 /-- termination is a conclusion, not an assumption: with fuel above the key a query by the user in a
     state satisfying the invariant never runs out of fuel — this includes the recursion through
-    `repair_transitive_firewall_callees`.  PARTIAL: programs without a projection over a projection. -/
-theorem core_query_no_out_of_fuel_partial {p : Program} (wf : WF p) (pf : NoProjOverProj p) {s : St}
+    `repair_transitive_firewall_callees`.  PARTIAL: `Shape p` = no projection over a projection, or all projections static. -/
+theorem core_query_no_out_of_fuel_partial {p : Program} (wf : WF p) (sh : Shape p) {s : St}
     (inv : Inv p s) {k fuel : Nat} (hk : k < fuel) : query p fuel .user k s ≠ .error .outOfFuel :=
-  (query_spec wf pf hk inv).not_oof
+  (query_spec wf sh hk inv).not_oof
 
-/-- … and no history run with `fuelFor p` ever runs out of fuel.  PARTIAL: no projection over a projection. -/
-theorem core_history_no_out_of_fuel_partial {p : Program} (wf : WF p) (pf : NoProjOverProj p) (ops : List Op) :
+/-- … and no history run with `fuelFor p` ever runs out of fuel.  PARTIAL: `Shape p`. -/
+theorem core_history_no_out_of_fuel_partial {p : Program} (wf : WF p) (sh : Shape p) (ops : List Op) :
     runOps p ops {} ≠ .error .outOfFuel :=
-  (runOps_spec wf pf ops {} (Inv.init p)).not_oof
+  (runOps_spec wf sh ops {} (Inv.init p)).not_oof
 
 /-- non-vacuity: the firewall diamond: session 2 is absorbed by the firewall (only key 2 runs),
     session 3 changes it (everything above runs) -/
-example : WF exF ∧ NoProjOverProj exF ∧ (runOps exF exDOps {}).toOption.map (·.1) =
+example : WF exF ∧ Shape exF ∧ (runOps exF exDOps {}).toOption.map (·.1) =
     some [.sess [.fresh, .fresh], .round [16] [2, 3, 4, 5], .sess [.updated], .round [16] [2],
       .sess [.updated], .round [5] [2, 3, 4, 5]] :=
-  ⟨exF_wf, exF_noProj.over, by decide⟩
+  ⟨exF_wf, Or.inl exF_noProj.over, by decide⟩
 
 /-- non-vacuity, finding F1b's shape: a dependency switches between two equal-valued firewalls under
     a node that is not re-queried; then the second firewall changes: the answer is 8 (today's
     implementation answers 7) -/
-example : WF exA ∧ NoProjOverProj exA ∧ (runOps exA exAOps {}).toOption.map (·.1) =
+example : WF exA ∧ Shape exA ∧ (runOps exA exAOps {}).toOption.map (·.1) =
     some [.sess [.fresh, .fresh, .fresh], .round [7] [3, 5, 6], .sess [.updated], .round [7] [4, 5],
       .sess [.updated], .round [8] [4, 5, 6]] :=
-  ⟨exA_wf, exA_noProj.over, by decide⟩
+  ⟨exA_wf, Or.inl exA_noProj.over, by decide⟩
 
 /-- the diamond with a firewall AND A PROJECTION (inside the proved fragment: the projection reads a
     firewall): session 2 is absorbed (only the firewall runs); session
     3 changes the firewall: the projection 3 is re-run by backward projection (before key 5 is
     repaired), then keys 4 and 5 -/
-example : WF exD ∧ NoProjOverProj exD ∧ (runOps exD exDOps {}).toOption.map (·.1) =
+example : WF exD ∧ Shape exD ∧ (runOps exD exDOps {}).toOption.map (·.1) =
     some [.sess [.fresh, .fresh], .round [16] [2, 3, 4, 5], .sess [.updated], .round [16] [2],
       .sess [.updated], .round [5] [2, 3, 4, 5]] :=
-  ⟨exD_wf, exD_pf, by decide⟩
+  ⟨exD_wf, Or.inl exD_pf, by decide⟩
 
 /-- the order inside the last round of the previous example: firewall, projection (by backward
     projection, while the transitive firewall callees of key 5 are repaired), then 4 and 5 -/
@@ -164,11 +241,11 @@ example : (match runOps exD (exDOps.take 5) {} with
     the repair `f1p + f1q + f14` WITHOUT `f1r` answers with the stale 5 (so does today's
     implementation; replay `corpus/engine-acyclic/F1c.txt`): this model (`f1r`: a projection published
     with a changed set is treated like one whose value changed) answers 6, the from-scratch value -/
-theorem repair_without_f1r_unsound_shape : WF exC ∧ NoProjOverProj exC ∧ Inv exC exCS ∧
+theorem repair_without_f1r_unsound_shape : WF exC ∧ Shape exC ∧ Inv exC exCS ∧
     cur exC exCS 6 = some 6 ∧ (runOps exC exCOps {}).toOption.map (·.1) =
     some [.sess [.fresh, .fresh], .round [5] [2, 4, 5, 6], .sess [.updated], .round [5] [2, 3, 4],
       .sess [.updated], .round [6] [3, 4, 5, 6]] :=
-  ⟨exC_wf, exC_pf, exCS_inv, by decide, by decide⟩
+  ⟨exC_wf, Or.inl exC_pf, exCS_inv, by decide, by decide⟩
 
 end Qbice.CoreFw
 
